@@ -159,14 +159,17 @@ func c07Alias(concurrent bool) {
 			ReplacementCharacter: DefaultReplacementCharacter,
 		}}
 	root := newRootScope(opts, 0)
-	sp1, sp2 := verifrt.String("spelling", 1), verifrt.String("spelling", 1)
+	sp1, sp2 := "a", "b" // both are rewritten to "_" by this sanitizer
+	if !concurrent {
+		sp1, sp2 = verifrt.String("spelling", 1), verifrt.String("spelling", 1)
+	}
 	// both spellings sanitize to the same value (the solver picks them, e.g. "-" and "_")
 	verifrt.Assume(verifrt.EqStr(root.sanitizer.Value(sp1), root.sanitizer.Value(sp2)))
-	v1, v2, v3 := verifrt.Int64("inc"), verifrt.Int64("inc"), verifrt.Int64("inc")
-	verifrt.Assume(verifrt.And(v1 != 0, verifrt.And(v2 != 0, v3 != 0)))
+	v0, v1, v2, v3 := verifrt.Int64("inc"), verifrt.Int64("inc"), verifrt.Int64("inc"), verifrt.Int64("inc")
+	verifrt.Assume(verifrt.And(verifrt.And(v0 != 0, v1 != 0), verifrt.And(v2 != 0, v3 != 0)))
 	first := sp1
 	second := sp2
-	if verifrt.Choose("first-obtain-both", 2) == 1 {
+	if concurrent || verifrt.Choose("first-obtain-both", 2) == 1 {
 		// the scope is known under both keys before it is closed
 		root.Tagged(map[string]string{"k": sp2})
 	}
@@ -174,8 +177,14 @@ func c07Alias(concurrent bool) {
 	s.Counter("x").Inc(v1)
 	var s2 Scope
 	app := func() {
+		// recorded while a pass may be half-way through the aliases of this scope
+		s.Counter("x").Inc(v0)
 		s.(io.Closer).Close()
-		switch verifrt.Choose("reacquire", 3) {
+		reacquire := 2
+		if !concurrent {
+			reacquire = verifrt.Choose("reacquire", 3)
+		}
+		switch reacquire {
 		case 0:
 			s2 = root.Tagged(map[string]string{"k": second})
 		case 1:
@@ -197,6 +206,8 @@ func c07Alias(concurrent bool) {
 		verifrt.StopExplore()
 	} else {
 		if verifrt.Choose("pass-before-reacquire", 2) == 1 {
+			s.Counter("x").Inc(v0)
+			v0 += v0
 			s.(io.Closer).Close()
 			root.reportRegistry()
 		}
@@ -205,10 +216,10 @@ func c07Alias(concurrent bool) {
 	verifrt.Assert("c07.alias.scope-after-close-is-live", !s2.(*scope).closed.Load())
 	root.reportRegistry()
 	root.reportRegistry()
-	verifrt.Assert("c07.alias.delivered-exactly-once", sumNamed(&rec.vReporter, "x") == v1+v2)
+	verifrt.Assert("c07.alias.delivered-exactly-once", sumNamed(&rec.vReporter, "x") == v0+v1+v2)
 	s2.Counter("x").Inc(v3)
 	root.reportRegistry()
-	verifrt.Assert("c07.alias.scope-after-close-stays-registered", sumNamed(&rec.vReporter, "x") == v1+v2+v3)
+	verifrt.Assert("c07.alias.scope-after-close-stays-registered", sumNamed(&rec.vReporter, "x") == v0+v1+v2+v3)
 	verifrt.Reach("c07.alias.end")
 }
 
